@@ -242,6 +242,7 @@ func partA(r *ev.Run) {
 				}
 				r.Evals(int64(len(seqs)))
 				if r.Violations() > 100 {
+					r.NotExhaustive("stopped after more than 100 violations")
 					break
 				}
 			}
